@@ -225,4 +225,25 @@ def exec (xlen : Nat) (name : String) (w : Nat) (s : St) : Option St :=
   | "amominu.d" => amo 8 min | "amomaxu.d" => amo 8 max
   | _ => none
 
+/-- the memory range `(address, bytes)` an instruction accesses, if any -/
+def accessRange (xlen : Nat) (name : String) (w : Nat) (s : St) : Option (Nat × Nat) :=
+  let a := s.get (rs1 w)
+  let ld := wrap xlen ((a : Int) + immI w)
+  let st := wrap xlen ((a : Int) + immS w)
+  match name with
+  | "lb" | "lbu" => some (ld, 1) | "lh" | "lhu" => some (ld, 2) | "lw" | "lwu" => some (ld, 4) | "ld" => some (ld, 8)
+  | "sb" => some (st, 1) | "sh" => some (st, 2) | "sw" => some (st, 4) | "sd" => some (st, 8)
+  | "lr.w" | "sc.w" | "amoswap.w" | "amoadd.w" | "amoxor.w" | "amoand.w" | "amoor.w"
+  | "amomin.w" | "amomax.w" | "amominu.w" | "amomaxu.w" => some (a, 4)
+  | "lr.d" | "sc.d" | "amoswap.d" | "amoadd.d" | "amoxor.d" | "amoand.d" | "amoor.d"
+  | "amomin.d" | "amomax.d" | "amominu.d" | "amomaxu.d" => some (a, 8)
+  | _ => none
+
+/-- Reference scope: a memory access that wraps around the end of the variant's address space is
+left to the execution environment by the ISA and is excluded from the reference. -/
+def noWrap (xlen : Nat) (name : String) (w : Nat) (s : St) : Bool :=
+  match accessRange xlen name w s with
+  | some (a, n) => a + n ≤ 2 ^ xlen
+  | none => true
+
 end Mltwist.Spec.Rv
